@@ -4,6 +4,7 @@ import (
 	"os"
 
 	"github.com/goatcms/goatcore/filesystem"
+	"github.com/goatcms/goatcore/varutil"
 	"github.com/goatcms/goatcore/varutil/goaterr"
 )
 
@@ -70,7 +71,10 @@ func (ro ROFilespace) WriteFile(dest string, data []byte, perm os.FileMode) erro
 }
 
 // Filespace create new filespace
-func (ro ROFilespace) Filespace(src string) (filesystem.Filespace, error) {
+func (ro ROFilespace) Filespace(src string) (_ filesystem.Filespace, err error) {
+	if src, err = varutil.ReduceAbsPath(src); err != nil {
+		return nil, err
+	}
 	return NewReadonlyFS(NewSubFS(ro.fs, src)), nil
 }
 
